@@ -252,6 +252,34 @@ fn chk_lazy(mode: &str, rg: Range, bytes: &[u8]) -> Result<(), String> {
                 return Err(format!("lookup of tile {id} returned other bytes"));
             }
         }
+        // a transient fault during one lookup must not affect the next one (position bookkeeping, caches)
+        let mut by_off: Vec<(u64, (u64, u32))> = in_range.clone();
+        by_off.sort_by_key(|(_, ol)| ol.0);
+        by_off.dedup_by_key(|(_, ol)| ol.0);
+        if by_off.len() >= 3 {
+            let (a, c, b) = (by_off[0], by_off[1], by_off[by_off.len() - 1]);
+            for j in 0..4usize {
+                let _ = res(catch_unwind(AssertUnwindSafe(|| pm.get_tile_by_id(a.0))), "get_tile_by_id")?;
+                let k = sh.0.borrow().ops;
+                sh.0.borrow_mut().fail_at = Some(k + j);
+                let rb = catch_unwind(AssertUnwindSafe(|| pm.get_tile_by_id(b.0))).map_err(|_| "get_tile_by_id panicked under a transient fault".to_string())?;
+                let faulted = sh.0.borrow().ops > k + j;
+                sh.0.borrow_mut().fail_at = None;
+                if faulted && rb.is_ok() {
+                    return Err(format!("lookup of tile {} returned Ok although one of its stream operations failed", b.0));
+                }
+                sh.0.borrow_mut().log.clear();
+                let got = res(catch_unwind(AssertUnwindSafe(|| pm.get_tile_by_id(c.0))), "get_tile_by_id")?;
+                let want = (h.data_off + c.1 .0, h.data_off + c.1 .0 + u64::from(c.1 .1));
+                let rr = read_ranges(&sh.0.borrow().log);
+                if rr != vec![want] {
+                    return Err(format!("after a failed lookup, the lookup of tile {} read {rr:?}, its byte range is [{}, {})", c.0, want.0, want.1));
+                }
+                if got.as_deref() != Some(spec::tile_bytes(bytes, h, c.1)?) {
+                    return Err(format!("after a failed lookup, the lookup of tile {} returned other bytes", c.0));
+                }
+            }
+        }
         // an id that is not present reads nothing
         sh.0.borrow_mut().log.clear();
         let _ = pm.get_tile_by_id(u64::MAX - 3);
@@ -278,6 +306,33 @@ fn chk_lazy(mode: &str, rg: Range, bytes: &[u8]) -> Result<(), String> {
             }
             if got.as_deref() != Some(spec::tile_bytes(bytes, h, *ol)?) {
                 return Err(format!("async lookup of tile {id} returned other bytes"));
+            }
+        }
+        let mut by_off: Vec<(u64, (u64, u32))> = in_range.clone();
+        by_off.sort_by_key(|(_, ol)| ol.0);
+        by_off.dedup_by_key(|(_, ol)| ol.0);
+        if by_off.len() >= 3 {
+            let (a, c, b) = (by_off[0], by_off[1], by_off[by_off.len() - 1]);
+            for j in 0..4usize {
+                let _ = res(catch_unwind(AssertUnwindSafe(|| block_on(pm.get_tile_by_id_async(a.0)))), "get_tile_by_id_async")?;
+                let k = sh.0.lock().unwrap().ops;
+                sh.0.lock().unwrap().fail_at = Some(k + j);
+                let rb = catch_unwind(AssertUnwindSafe(|| block_on(pm.get_tile_by_id_async(b.0)))).map_err(|_| "get_tile_by_id_async panicked under a transient fault".to_string())?;
+                let faulted = sh.0.lock().unwrap().ops > k + j;
+                sh.0.lock().unwrap().fail_at = None;
+                if faulted && rb.is_ok() {
+                    return Err(format!("async lookup of tile {} returned Ok although one of its stream operations failed", b.0));
+                }
+                sh.0.lock().unwrap().log.clear();
+                let got = res(catch_unwind(AssertUnwindSafe(|| block_on(pm.get_tile_by_id_async(c.0)))), "get_tile_by_id_async")?;
+                let want = (h.data_off + c.1 .0, h.data_off + c.1 .0 + u64::from(c.1 .1));
+                let rr = read_ranges(&sh.0.lock().unwrap().log);
+                if rr != vec![want] {
+                    return Err(format!("after a failed async lookup, the lookup of tile {} read {rr:?}, its byte range is [{}, {})", c.0, want.0, want.1));
+                }
+                if got.as_deref() != Some(spec::tile_bytes(bytes, h, c.1)?) {
+                    return Err(format!("after a failed async lookup, the lookup of tile {} returned other bytes", c.0));
+                }
             }
         }
     }
